@@ -23,3 +23,6 @@ Inductive val :=
 | VBlob
 | VNull.
 Definition row := list val.
+
+(* pieces of a zone-file line (StructureSimilarity._write_zone) *)
+Inductive zpiece := ZLit (s : string) | ZChain | ZNum.
